@@ -8,6 +8,8 @@ import (
 	"io"
 	"math"
 	"net"
+	"strconv"
+	"strings"
 	"sync"
 	"time"
 
@@ -92,6 +94,11 @@ func (a *arrM) MarshalZerologArray(arr *zerolog.Array) { ApplyArray(arr, a.l) }
 
 type unmarshalable struct{ C chan int }
 
+// badMarshal fails to marshal with an error text of the generator's choosing (any bytes).
+type badMarshal struct{ msg string }
+
+func (b badMarshal) MarshalJSON() ([]byte, error) { return nil, errors.New(b.msg) }
+
 type jstruct struct {
 	A string  `json:"a"`
 	N int64   `json:"n"`
@@ -133,6 +140,8 @@ func (i *Iface) Go() interface{} {
 		return json.RawMessage(i.S)
 	case "unmarshalable":
 		return unmarshalable{}
+	case "badmarshal":
+		return badMarshal{string(i.S)}
 	case "objmarshaler":
 		return &objM{i.Ops}
 	case "ptrnil":
@@ -800,6 +809,13 @@ func (s Settings) Apply() (restore func()) {
 	if s.GlobalLow > 0 {
 		zerolog.SetGlobalLevel(zerolog.Level(-s.GlobalLow))
 	}
+	oldLM := zerolog.LevelFieldMarshalFunc
+	switch s.LevelMarshal {
+	case "upper":
+		zerolog.LevelFieldMarshalFunc = func(l zerolog.Level) string { return strings.ToUpper(l.String()) }
+	case "total":
+		zerolog.LevelFieldMarshalFunc = TotalLevelText
+	}
 	set(&zerolog.LevelFieldName, s.LevelField)
 	set(&zerolog.MessageFieldName, s.MessageField)
 	set(&zerolog.TimestampFieldName, s.TimeField)
@@ -897,6 +913,7 @@ func (s Settings) Apply() (restore func()) {
 		zerolog.TimeFieldFormat, zerolog.DurationFieldUnit, zerolog.DurationFieldInteger, zerolog.FloatingPointPrecision = o.tfmt, o.du, o.di, o.fp
 		zerolog.ErrorMarshalFunc, zerolog.ErrorStackMarshaler, zerolog.InterfaceMarshalFunc, zerolog.TimestampFunc = o.em, o.sm, o.im, o.ts
 		zerolog.SetGlobalLevel(zerolog.TraceLevel)
+		zerolog.LevelFieldMarshalFunc = oldLM
 		setMu.Unlock()
 	}
 }
@@ -951,6 +968,38 @@ func (h hookImpl) Run(e *zerolog.Event, level zerolog.Level, msg string) {
 	default:
 		panic("lp: unknown hook kind " + h.spec.Kind)
 	}
+}
+
+// TotalLevelText maps every level to a non-empty text of its own (syslog-like severities).
+func TotalLevelText(l zerolog.Level) string {
+	switch l {
+	case zerolog.TraceLevel:
+		return "7t"
+	case zerolog.DebugLevel:
+		return "7"
+	case zerolog.InfoLevel:
+		return "6"
+	case zerolog.WarnLevel:
+		return "4"
+	case zerolog.ErrorLevel:
+		return "3"
+	case zerolog.FatalLevel:
+		return "2"
+	case zerolog.PanicLevel:
+		return "0"
+	case zerolog.NoLevel:
+		return "notice"
+	case zerolog.Disabled:
+		return "off"
+	}
+	return "L" + strconv.Itoa(int(l))
+}
+
+// poisonHook marks every event it ever runs on.
+type poisonHook struct{}
+
+func (poisonHook) Run(e *zerolog.Event, l zerolog.Level, m string) {
+	e.Str("POISON", "a hook slice reused by the caller reached the logger")
 }
 
 func (rt *Rt) MkHook(s HookSpec) zerolog.Hook {
@@ -1020,7 +1069,13 @@ func (rt *Rt) applyStep(parent *zerolog.Logger, st Step) (zerolog.Logger, *RecWr
 		for i, h := range st.Hooks {
 			hs[i] = rt.MkHook(h)
 		}
-		return parent.Hook(hs...), nil
+		l := parent.Hook(hs...)
+		// the caller's slice stays the caller's: reusing it afterwards (here: poisoning every entry)
+		// must not reach the logger
+		for i := range hs {
+			hs[i] = poisonHook{}
+		}
+		return l, nil
 	case "level":
 		return parent.Level(zerolog.Level(st.Level)), nil
 	case "viactx":
